@@ -534,7 +534,16 @@ func (c *Ctx) checkC18StoreLayer() {
 				continue
 			}
 			// every path from the failure edge to return passes UserDelete and returns a non-nil error
-			miss, _ := core.PathFromEdgeAvoiding(fn, fe, core.IsReturn, core.IsCallInstrTo(userDelete), nil)
+			// the compensation removes the row (hard delete): a soft delete keeps the user and its tags
+			isHardDelete := func(in ssa.Instruction) bool {
+				if !core.IsCallInstrTo(userDelete)(in) {
+					return false
+				}
+				args := core.CallArgs(in.(ssa.CallInstruction).Common())
+				k, ok := core.Strip(args[len(args)-1]).(*ssa.Const)
+				return ok && k.Value != nil && k.Value.Kind() == constant.Bool && constant.BoolVal(k.Value)
+			}
+			miss, _ := core.PathFromEdgeAvoiding(fn, fe, core.IsReturn, isHardDelete, nil)
 			r.Check(!miss, "C18.5-store-compensation", fk(fn)+": failed Subs.Create is compensated", c.pos(sc),
 				"user row is deleted before the error is returned", "account creation can return with the user row stored but its built-in subscriptions missing")
 		}
@@ -717,7 +726,12 @@ func (c *Ctx) checkFailureReported(rel string) {
 				}
 			}
 			nCalls++
-			core.NilWalkAfter(fn, call, cut, nil, func(i2 ssa.Instruction, f core.NilFacts) {
+			// the statement is assumed to have failed (however its error is tested afterwards)
+			init := core.NilFacts{eVal: false}
+			if ex, isEx := eVal.(*ssa.Extract); isEx {
+				init = core.NilFacts{core.ResultFact(ex.Tuple, ex.Index): false}
+			}
+			core.NilWalkAfterWith(fn, call, init, cut, nil, func(i2 ssa.Instruction, f core.NilFacts) {
 				ret, ok := i2.(*ssa.Return)
 				if !ok {
 					return
